@@ -58,7 +58,35 @@ type Recorder struct {
 	Enables  []EnabledRec
 	SigAdds  []SigRec
 	Removed  []channel.ID
+	Phases   []PhaseRec
 	OnEnable func(r EnabledRec)
+}
+
+// PhaseRec is one PhaseChanged observation.
+type PhaseRec struct {
+	At    time.Duration
+	Ch    channel.ID
+	Phase channel.Phase
+}
+
+func (r *Recorder) PhaseChanged(ctx context.Context, s channel.Source) error {
+	r.mu.Lock()
+	r.Phases = append(r.Phases, PhaseRec{At: r.n.W.S.Now(), Ch: s.ID(), Phase: s.Phase()})
+	r.mu.Unlock()
+	r.n.W.S.Event(r.n.Name, "persist:Phase", fmt.Sprintf("%s %v", r.n.W.S.ChanName(s.ID()), s.Phase()))
+	return r.PersistRestorer.PhaseChanged(ctx, s)
+}
+
+// FirstPhase returns the time of the first PhaseChanged of ch into ph.
+func (r *Recorder) FirstPhase(id channel.ID, ph channel.Phase) (time.Duration, bool) {
+	r.mu.Lock()
+	defer r.mu.Unlock()
+	for _, p := range r.Phases {
+		if p.Ch == id && p.Phase == ph {
+			return p.At, true
+		}
+	}
+	return 0, false
 }
 
 // SigRec is one SigAdded observation.
@@ -310,8 +338,15 @@ func (n *Node) Watch(ch *client.Channel) {
 	n.watchWG.Add(1)
 	go func() {
 		defer n.watchWG.Done()
-		_ = ch.Watch(adjHandler{n, ch})
+		err := ch.Watch(adjHandler{n, ch})
+		n.W.S.Event(n.Name, "watch:returned", fmt.Sprintf("%s err=%v", n.W.S.ChanName(ch.ID()), err))
 	}()
+	// Channel.Watch has no readiness signal; a user has to make sure the
+	// parent is watched before a sub-channel's Watch starts. Wait until the
+	// watcher's chain subscription for this channel exists.
+	for i := 0; i < 20000 && !n.W.Ledger.HasSub(n.Name, ch.ID()); i++ {
+		time.Sleep(50 * time.Microsecond)
+	}
 }
 
 type adjHandler struct {
